@@ -72,6 +72,27 @@ def bases(engine, rng, n):
     return out
 
 
+S, D, P = dpgen.src, dpgen.dst, dpgen.proc
+
+
+def stop_while_reading(engine, n):
+    """the source connector takes a while to confirm the stop and hands over one more batch meanwhile: those records
+    are part of the run (the connector reports the last of them as its stop position) and must be drained too"""
+    out = []
+    for i in range(n):
+        kind = "StopAndWait" if i % 2 == 0 else "Stop"
+        sc = dpgen.scenario("%s-g-stopread-%03d" % (engine, i), engine, [S("s1", 4, [1, 2, 1], stop_delay_ms=60 + 20 * (i % 3))],
+                            [D("d1", gated=(i % 4 < 2))],
+                            steps=[{"do": "Emit", "src": "s1"}, {"do": "Confirm", "dst": "d1"}, {"do": kind},
+                                   {"do": "Sleep", "ms": 5 + 10 * (i % 3)}, {"do": "Emit", "src": "s1"}, {"do": "Settle"},
+                                   {"do": "Confirm", "dst": "d1", "n": 2}])
+        if kind == "Stop":
+            sc["final"] = "stopwait"
+        sc["features"] = sorted(set(dpgen.features_of(sc)) | {"healthy", "graceful", "stop-while-reading"})
+        out.append(sc)
+    return out
+
+
 def random_healthy(rng, engine, n):
     out = []
     for i in range(n):
@@ -122,6 +143,7 @@ def run(tier, seed):
         for b in bases(engine, rng, 0):
             scs += stop_everywhere(b)
     chk.run(scs, name="stop-everywhere")
+    chk.run(stop_while_reading("v1", 8 if quick else 60) + stop_while_reading("v2", 8 if quick else 60), name="stop-while-reading")
     n = 60 if quick else 2000
     chk.run(random_healthy(rng, "v1", n) + random_healthy(rng, "v2", n), name="healthy-random")
     chk.validate()
